@@ -520,6 +520,14 @@ def deck():
     cell("set_card2/invalid", ["set_card2", A, "set_sections_cardinality", 3, 1],
          ["set_card2", A, "set_properties_cardinality", -1, None],
          ["set_card2", P, "set_values_cardinality", 2, 1])
+    # values that are all empty text / None (the value-dependent validation rules run last in the constructor, after
+    # the new Property has been attached)
+    for vals in ([""], ["", ""], [None], [" "], ["", "a"]):
+        for dtype in (None, "string", "text"):
+            cell("ctor/prop/blank-values-attached", ["prop", "blank", enc(vals), dtype, B, {}])
+    for card in ((1, 1), (2, 2), (0, 1), (3, 3)):
+        cell("ctor/prop/exact-cardinality-attached", ["prop", "n", enc([1]), "int", B, {"val_cardinality": enc(card)}])
+        cell("ctor/sec/exact-cardinality-attached", ["sec", "n", "t", B, {"sec_cardinality": enc(card), "prop_cardinality": enc(card)}])
     cell("ctor/prop/unconvertible-attached", ["prop", "n", enc(["x"]), "int", B, {}])
     cell("ctor/prop/unconvertible-mixed", ["prop", "n", enc([1, "x"]), None, B, {}])
     cell("create_property/clash", ["create_property", A, "p", enc([1]), "int"])
